@@ -106,7 +106,7 @@ struct verif_atomic {
 #undef VERIF_RMW
 #define VERIF_RMW_BIT(NAME, KIND, OP)                                                            \
   template <class U = T, class = decltype(std::declval<std::atomic<U>&>().NAME(std::declval<U>()))> \
-  U NAME(U arg, std::memory_order o = std::memory_order_seq_cst) noexcept {                      \
+  U NAME(T arg, std::memory_order o = std::memory_order_seq_cst) noexcept {                      \
     dsched::pre(&a_, dsched::KIND, (int)o);                                                      \
     U old = a_.NAME(arg, o);                                                                     \
     U nw = (U)(old OP arg);                                                                      \
@@ -133,9 +133,9 @@ struct verif_atomic {
   template <class U = T, class = decltype(std::declval<std::atomic<U>&>() -= std::declval<U>())>
   U operator-=(U v) noexcept { return fetch_sub(v) - v; }
   template <class U = T, class = decltype(std::declval<std::atomic<U>&>() |= std::declval<U>())>
-  U operator|=(U v) noexcept { return fetch_or(v) | v; }
+  U operator|=(T v) noexcept { return fetch_or(v) | v; }
   template <class U = T, class = decltype(std::declval<std::atomic<U>&>() &= std::declval<U>())>
-  U operator&=(U v) noexcept { return fetch_and(v) & v; }
+  U operator&=(T v) noexcept { return fetch_and(v) & v; }
 };
 
 using verif_atomic_char = verif_atomic<char>;
